@@ -248,7 +248,36 @@ def run(cx):
         for st, v in defs:
             if isinstance(v, ast.Call) and isinstance(v.func, ast.Attribute) and is_name(v.func.value, "self", "cls") and repo.has(REL, f"LLParser.{v.func.attr}"):
                 helper = cx.func(REL, f"LLParser.{v.func.attr}", "R03c")
-        if helper is not None:
+        nxt = [v for st, v in defs if isinstance(v, ast.Call) and isinstance(v.func, ast.Name) and v.func.id == "next" and len(v.args) == 2
+               and isinstance(v.args[0], ast.GeneratorExp)]
+        if helper is None and len(nxt) == 1 and len(defs) == 1:
+            # rollback_point = next((i for i in <descending positions> if <entry i has an untried alternative>), -1)
+            ge = nxt[0].args[0]
+            dflt = nxt[0].args[1]
+            g0 = ge.generators[0]
+            it_txt = norm(g0.iter).replace(" ", "")
+            desc = it_txt in ("reversed(range(len(parse_stack)))", "range(len(parse_stack)-1,-1,-1)")
+            shape = len(ge.generators) == 1 and isinstance(g0.target, ast.Name) and is_name(ge.elt, g0.target.id) and len(g0.ifs) == 1 and \
+                isinstance(dflt, ast.UnaryOp) and isinstance(dflt.op, ast.USub) and const(dflt.operand, int) and dflt.operand.value == 1
+            if not (desc and shape):
+                raise AnalysisError("R03c", f"{REL}::LLParser.parse", "roll-back point by next(): form not recognised")
+            cond = g0.ifs[0]
+            verdict = None
+            entry = f"parse_stack[{g0.target.id}]"
+            if isinstance(cond, ast.Call) and isinstance(cond.func, ast.Attribute) and norm(cond.func.value) == entry and not cond.args:
+                # a predicate method of the stack element
+                se_cls = cx.cls(REL, "_StackElement", "R03c")
+                pm = repo.method(se_cls, cond.func.attr)
+                body = [b for b in (pm.body if pm is not None else []) if not (isinstance(b, ast.Expr) and isinstance(b.value, ast.Constant))]
+                if len(body) == 1 and isinstance(body[0], ast.Return) and body[0].value is not None:
+                    verdict = untried_test(body[0].value, True)
+            elif isinstance(cond, ast.Compare) and all(norm(x.value) == entry for x in ast.walk(cond) if isinstance(x, ast.Attribute) and x.attr in ("cur_prod_id", "prod_rs")):
+                verdict = untried_test(cond, True)
+            if verdict is None:
+                raise AnalysisError("R03c", f"{REL}::LLParser.parse", "test selecting the roll-back point not recognised")
+            cx.ob("R03c", nxt[0], verdict, "the roll-back point (first entry from the top with an untried alternative) is selected by a descending search" if verdict else
+                  "the search stops at an entry that may have no untried alternative (switching it runs past its last production)")
+        elif helper is not None:
             # helper form: every `return <non-constant>` is under the untried test on the entry at that position; other returns are -1;
             # the walk is a for over a range (terminates)
             rets = [r for r in walk_local(helper) if isinstance(r, ast.Return)]
